@@ -18,10 +18,10 @@ BUDGET = {
 }
 REQUIRED_PROBES = {"quick": ("op_online_ok", "op_online_refused", "op_online_silent", "op_offline", "s1f15", "s1f17",
                              "op_local", "op_remote", "illegal_switch", "ce_checked", "offline_from_host_offline",
-                             "race", "op_online_without_communication"),
+                             "race", "op_online_without_communication", "transport_secsi"),
                    "thorough": ("op_online_ok", "op_online_refused", "op_online_silent", "op_offline", "s1f15", "s1f17",
                                 "op_local", "op_remote", "illegal_switch", "ce_checked", "offline_from_host_offline",
-                                "s1f17_during_probe", "race", "op_online_without_communication")}
+                                "s1f17_during_probe", "race", "op_online_without_communication", "transport_secsi")}
 EVIDENCE = {
     "level": "exploration",
     "rule": ("all initial configurations (EQUIPMENT_OFFLINE / ATTEMPT_ONLINE / HOST_OFFLINE / ONLINE x "
@@ -32,9 +32,9 @@ EVIDENCE = {
              "a link loss); non-trivial = at least one transition was taken; distinct = distinct (initial config, "
              "op sequence)"),
     "real": ["secsgem.gem.ControlStateMachine", "secsgem.gem.StateModelsCapability", "secsgem.gem.GemEquipmentHandler",
-             "secsgem.gem.CollectionEventCapability (sender threads)", "secsgem.hsms.HsmsProtocol",
+             "secsgem.gem.CollectionEventCapability (sender threads)", "secsgem.hsms.HsmsProtocol", "secsgem.secsi.SecsIProtocol + SerialConnection (a fifth of the runs)",
              "secsgem.common.Tcp*Connection"],
-    "stub": ["socket/select (SimSocket)", "scripted host (reference codecs)"],
+    "stub": ["socket/select (SimSocket)", "serial.Serial (SimLine) with the reference E4 peer", "scripted host (reference codecs)"],
     "assumptions": ["E30 reading in DESIGN.md B.3; a failed attempt-online may end in HOST_OFFLINE or EQUIPMENT_OFFLINE; "
                     "for the operator's OFF-LINE from HOST_OFFLINE the 'equipment off-line' event is accepted either way",
                     "operator switches that E30 gives no transition for must raise and change nothing"],
@@ -88,6 +88,7 @@ def gen_plan(rng, tier, index):
     plan = {"initial": rng.choice(["EQUIPMENT_OFFLINE", "ATTEMPT_ONLINE", "HOST_OFFLINE", "ONLINE"]),
             "sub": rng.choice(["LOCAL", "REMOTE"]), "events": rng.random() < 0.7, "ops": ops,
             "active": rng.random() < 0.3, "latency": rng.choice([0.0, 0.0005, 0.01])}
+    plan["transport"] = rng.choice(["hsms", "hsms", "hsms", "hsms", "secsi"])
     sched = dict(rng.choice(SCHEDS))
     sched["seed"] = rng.getrandbits(48)
     plan["sched"] = sched
@@ -108,9 +109,26 @@ def shrink_candidates(plan):
 def run(sim, plan):
     k = sim.k
     sim.make_net(latency=plan["latency"])
-    env = gemenv.GemEnv(sim, role="equipment", active=plan["active"], t3=T3, delay=1,
+    transport = plan.get("transport", "hsms")
+    line = sim.make_line(a="SIMA", b="SIMB") if transport == "secsi" else None
+    if transport == "secsi":
+        sim.probe("transport_secsi")
+    env = gemenv.GemEnv(sim, role="equipment", active=plan["active"], t3=T3, delay=1, transport=transport, line=line,
                         initial_control_state=plan["initial"], initial_online_control_state=plan["sub"])
     eq = env.handler
+    if transport == "secsi":
+        # E4 contention (both sides ENQ) is outside the statement and not resolved by secsgem's equipment role
+        # (observation in DESIGN.md): stimuli at the same instant are not generated on this transport, and a run in
+        # which the line saw a contention nevertheless decides nothing
+        _violation = sim.violation
+
+        def violation(*a, **kw):
+            if env.hp is not None and env.hp.peer.contentions:
+                sim.probe("secsi_contention")
+                sim.inconclusive("SECS-I ENQ contention (outside the statement)")
+            return _violation(*a, **kw)
+
+        sim.violation = violation
     probe_mode = {"mode": "s1f2", "inject_s1f17": False, "s1f17_system": None}
 
     comm = {"down": False}
@@ -293,6 +311,8 @@ def run(sim, plan):
                 check_state(op + ":not-communicating")
             new_events()
             continue
+        if transport == "secsi" and (op.startswith("race:") or op == "op_online_s1f17"):
+            continue     # two stimuli at the same instant: ENQ contention on a half-duplex line
         if op.startswith("race:"):
             # an operator switch and a host request at the same time: the outcome must be that of one of the two orders
             _r, oa, ha = op.split(":")
